@@ -253,10 +253,13 @@ func init() {
 		}
 		c.doc = cat(c.hdr, c.segs[0], join(c.segs[2:]))
 	})
+	add("duplicate_first_segment", true, func(c *mctx) { c.doc = cat(c.hdr, c.segs[0], join(c.segs)) })
+	add("duplicate_last_segment", true, func(c *mctx) { c.doc = cat(c.hdr, join(c.segs), c.segs[len(c.segs)-1]) })
 	add("duplicate_segment", true, func(c *mctx) {
 		j := c.r.Intn(len(c.segs))
 		c.doc = cat(c.hdr, join(c.segs[:j+1]), join(c.segs[j:]))
 	})
+	add("move_first_segment_to_end", true, func(c *mctx) { c.doc = cat(c.hdr, join(c.segs[1:]), c.segs[0]) })
 	add("swap_segments", true, func(c *mctx) {
 		s := append([][]byte(nil), c.segs...)
 		j := c.r.Intn(len(s) - 1)
@@ -637,7 +640,7 @@ func main() {
 			return run(ctx, in)
 		},
 	})
-	if err := encx.Reshard(encx.OutDir(), header, "case", "run_cases", 24); err != nil {
+	if err := encx.Reshard(encx.OutDir(), header, "case", "run_cases", encx.SmallShards()); err != nil {
 		fmt.Fprintln(os.Stderr, "c02: reshard:", err)
 		os.Exit(2)
 	}
